@@ -28,7 +28,7 @@ pub fn send_raw(addr: &str, prep: &Prepared) -> std::thread::Result<RawResult> {
     std::panic::catch_unwind(std::panic::AssertUnwindSafe(|| {
         let mut s = TcpStream::connect(addr).expect("connect");
         s.set_read_timeout(Some(Duration::from_secs(60))).ok();
-        let mut head = format!("{} {} HTTP/1.1\r\nHost: {}\r\nConnection: close\r\n", prep.method, prep.uri, addr).into_bytes();
+        let mut head = format!("{} {} HTTP/{}\r\nHost: {}\r\nConnection: close\r\n", prep.method, prep.uri, if prep.http10 { "1.0" } else { "1.1" }, addr).into_bytes();
         if let Some(c) = &prep.cid_bytes {
             head.extend_from_slice(b"X-Client-Id: ");
             head.extend_from_slice(c);
@@ -37,7 +37,7 @@ pub fn send_raw(addr: &str, prep: &Prepared) -> std::thread::Result<RawResult> {
         if let Some(ct) = &prep.ct_val {
             head.extend_from_slice(format!("Content-Type: {ct}\r\n").as_bytes());
         }
-        let chunked = prep.chunks.len() > 1;
+        let chunked = (prep.chunks.len() > 1 || prep.broken) && !prep.http10;
         if chunked {
             head.extend_from_slice(b"Transfer-Encoding: chunked\r\n\r\n");
         } else {
@@ -55,7 +55,12 @@ pub fn send_raw(addr: &str, prep: &Prepared) -> std::thread::Result<RawResult> {
                     s.write_all(c)?;
                     s.write_all(b"\r\n")?;
                 }
-                s.write_all(b"0\r\n\r\n")?;
+                if prep.broken {
+                    // corrupt framing where the next chunk size should be
+                    s.write_all(b"zz-not-a-chunk-size\r\n")?;
+                } else {
+                    s.write_all(b"0\r\n\r\n")?;
+                }
             } else {
                 for c in &prep.chunks {
                     s.write_all(c)?;
